@@ -480,6 +480,86 @@ def run(prog, rep, tier):
     if n_sites < 4:
         raise CheckerError("R14.7: only %d chrono conversion sites found in scope (expected at least 4)" % n_sites)
 
+    # ------------------------------------------------------------ R14.9 evaluation order decided for every kind of (-a, -b) pair
+    # Each bound is one of: absent/absolute (the relative-offset grammar does not match), relative to now,
+    # or '@'-relative to the other bound.  The order in which the two are resolved is a function of that
+    # pair; it is enumerated over all 3 x 3 kinds from the MIR of the deciding match:
+    #   (@, @) -> rejected;  (@, not @) -> -b first;  everything else -> -a first.
+    R149 = rep.rule("R14.9", "for every kind of (-a, -b) pair the '@'-relative bound is resolved second")
+    wds = sorted([c for c in cb.live_calls() if c.d == "s4::string_wdhms_to_duration"], key=lambda c: c.bb)
+    if len(wds) != 2:
+        raise CheckerError("cli_process_args: %d string_wdhms_to_duration peeks" % len(wds))
+
+    def _peek_role(c):
+        for o in cb.origins(c.args[0], through_calls=("::deref", "::as_ref", "::as_str", "::unwrap_or", "::clone", "Clone>::clone")):
+            for p_ in o[-1] if isinstance(o[-1], tuple) else ():
+                if p_ in ("dt_after", "dt_before"):
+                    return p_
+        nm_ = None
+        import flow as _fl14
+        t_ = _fl14.named_target(cb, c.args[0])
+        if t_ is not None and cb.local_name(t_):
+            nm_ = cb.local_name(t_)
+            if "after" in nm_:
+                return "dt_after"
+            if "before" in nm_:
+                return "dt_before"
+        return None
+    roles = {c.bb: _peek_role(c) for c in wds}
+    if sorted(v for v in roles.values() if v) != ["dt_after", "dt_before"]:
+        raise CheckerError("cli_process_args: the two peeks are not recognisably of dt_after and dt_before (%s)" % roles)
+    adt_k = facts.adts.get("s4::DUR_OFFSET_TYPE")
+    if not adt_k:
+        raise CheckerError("DUR_OFFSET_TYPE not extracted")
+    kidx = {v_["name"]: v_["idx"] for v_ in adt_k["variants"]}
+    start_ = max(wds, key=lambda c: c.bb).target
+    pde_bb = {c.bb: which(c) for c in pde}
+    paths_ = decide.enumerate_paths(cb, start_, lambda bb: ("pde:%s" % pde_bb[bb]) if bb in pde_bb else ("ret" if cb.term(bb)[0] == "ret" else None), opaque_ok=lambda bb: True, max_paths=5000)
+    KINDS = ("plain", "Now", "Other")
+    table = {}
+    for ka in KINDS:
+        for kb in KINDS:
+            outs = set()
+            for p_ in paths_:
+                ok_ = True
+                for d_ in p_.decisions:
+                    if d_[0] not in ("variant", "variant_not"):
+                        continue
+                    r_ = d_[1]
+                    if r_[0] != "call" or r_[1] != "string_wdhms_to_duration":
+                        continue
+                    k_ = ka if roles.get(r_[2]) == "dt_after" else kb
+                    if len(r_) == 3:
+                        # Option shape: 1 = Some
+                        val = 0 if k_ == "plain" else 1
+                    else:
+                        if k_ == "plain":
+                            ok_ = False   # payload inspected although None
+                            break
+                        val = kidx[k_]
+                    if d_[0] == "variant" and d_[2] != val:
+                        ok_ = False
+                        break
+                    if d_[0] == "variant_not" and val in d_[2]:
+                        ok_ = False
+                        break
+                if ok_:
+                    outs.add(p_.end)
+            table[(ka, kb)] = outs
+    for (ka, kb), outs in sorted(table.items()):
+        if ka == "Other" and kb == "Other":
+            want = {"deadend:call"}
+        elif ka == "Other":
+            want = {"pde:dt_before"}
+        else:
+            want = {"pde:dt_after"}
+        rep.examined(R149, "%s|a=%s,b=%s" % (cb.path, ka, kb), sample={"dt_after": ka, "dt_before": kb, "first_step": sorted(outs), "expected": sorted(want)})
+        if outs != want:
+            rep.violation(R149, "%s|a=%s,b=%s" % (cb.path, ka, kb), "cli_process_args: with --dt-after %s and --dt-before %s the first step is %s, expected %s; "
+                          "e.g. `-a @-1h -b=-1h` then resolves -a with no reference and exits with an error although the pair is valid" % (
+                              {"plain": "absolute/absent", "Now": "relative to now", "Other": "'@'-relative"}[ka], {"plain": "absolute/absent", "Now": "relative to now", "Other": "'@'-relative"}[kb], sorted(outs), sorted(want)))
+    rep.exhaustive.append({"domain": "kinds of (--dt-after, --dt-before): {absolute/absent, now-relative, @-relative}^2", "size": 9, "where": "cli_process_args"}) if hasattr(rep, "exhaustive") else None
+
     # ------------------------------------------------------------ R14.8 a signed offset applies its sign to every term
     # Where a FixedOffset is built from hand-written arithmetic (sign, hours, minutes) the sign has to
     # reach every additive term: `sign*h*3600 + m*60` turns -03:30 into -02:30.  Applies to any
